@@ -331,6 +331,7 @@ fn run_cycles(sc: &Value) {
     let rwx0 = watch::rwx_anon_count();
     let big_every = (i(sc, "big_every") as usize).max(1);
     let snap: Vec<Vec<u8>> = (1..=nf).map(|f| unsafe { std::slice::from_raw_parts(pool.addr(f) as *const u8, 16) }.to_vec()).collect();
+    LIFT_SNAP.with(|s| *s.borrow_mut() = snap.clone());
     let mut x = crate::seed_from_env().wrapping_mul(0x9E3779B97F4A7C15) ^ (i(sc, "id") as u64) | 1;
     let mut rnd = move || {
         x ^= x << 13;
@@ -354,6 +355,12 @@ fn run_cycles(sc: &Value) {
             if gate != "ok" {
                 break;
             }
+        }
+        // in the quiet cycles, now and then: the program lifts a fake BY HAND while it is installed -- it writes the function's
+        // own bytes back over the entry (what a JIT does when it re-emits a function, or a test that "unfakes" early); the
+        // scope exit must still release what the installation obtained and leave the function as it was
+        if c >= full && k > 0 && rnd() % 5 == 0 {
+            steps.push(json!({"op":"lift"}));
         }
         if rnd() % 4 == 0 {
             steps.push(json!({"op":"panic"}));
@@ -402,6 +409,17 @@ fn run_life_quiet(pool: &dyn Pool, steps: &[Value]) {
                         site: 0, n: -1, gate: s(st, "gate") };
                     in_lib(|| pool.install(&mut inj, &spec));
                 }
+                "lift" => {
+                    // the entry pages are writable: the library made them so and leaves them so
+                    for f in 1..=4usize.min(pool.nfuncs()) {
+                        let a = pool.addr(f);
+                        let pg = a & !0xfff;
+                        unsafe {
+                            interpose::raw_mprotect(pg, 8192, libc::PROT_READ | libc::PROT_WRITE | libc::PROT_EXEC);
+                            std::ptr::copy_nonoverlapping(LIFT_SNAP.with(|s| s.borrow()[f - 1].as_ptr()), a as *mut u8, 16);
+                        }
+                    }
+                }
                 "panic" => std::panic::panic_any(UserPanic),
                 _ => {}
             }
@@ -409,6 +427,7 @@ fn run_life_quiet(pool: &dyn Pool, steps: &[Value]) {
     }));
     set_in_lib(false);
 }
+thread_local! { static LIFT_SNAP: std::cell::RefCell<Vec<Vec<u8>>> = const { std::cell::RefCell::new(Vec::new()) }; }
 
 pub fn run(script: &str, out: &str) {
     crate::events::open(out);
